@@ -31,3 +31,11 @@ prop("C10", static=[
     ("owned", "liquer.state_types.PickleStateType.copy", "pickled-values-are-copied-in-depth", "return"),
     ("owned", "liquer.state_types.BytesStateType.copy", "bytes-are-copied", "return"),
 ])
+
+# C18: the copy of the metadata the in-memory cache keeps agrees with the returned one only as long as nobody else can change it - the
+# evaluator goes on writing into the state it handed to the cache (file name step, `created`, status)
+prop("C18", static=[
+    ("owned", "liquer.cache.MemoryCache.store", "the-cache-keeps-its-own-copy", "item:storage"),
+    ("owned", "liquer.cache.MemoryCache.store_metadata", "the-cache-keeps-its-own-copy-of-the-metadata", "attr:metadata"),
+    ("owned", "liquer.cache.MemoryCache.get", "the-cache-hands-out-a-copy", "return"),
+])
